@@ -461,6 +461,81 @@ pub fn run_c02(case: &Case) -> Outcome {
     out
 }
 
+/// Deep-chain models (`gen::gen_deep_chain`): several satisfy calls under configurations that keep
+/// learning (and mostly minimisation) on; every learned nogood is judged against the solution set.
+pub fn run_c02_deep(case: &Case) -> Outcome {
+    let m = &case.model;
+    let mut out = Outcome::new(m);
+    let mut r = SmallRng::seed_from_u64(case.sub);
+    let sols = m.enumerate();
+    let mut all_ev = vec![];
+    let mut descs = vec![];
+    for ci in 0..4 {
+        let cfg = deep_chain_config(&mut r);
+        descs.push(cfg.to_json());
+        pumpkin_solver::verif::enable();
+        let mut map = Default::default();
+        let res = guard(|| {
+            let mut out = Outcome::default();
+            let mut b = build(m, cfg.opts.to_options(), m.cons.len(), false, false);
+            map = dom_map(&b.xs);
+            if check_post_err(&mut out, m, &b) {
+                out.cover("verdict:post-error");
+                return out;
+            }
+            let mut brancher = make_brancher(&cfg.br, &b.solver, &b.xs);
+            let mut t = Budget::for_model(m);
+            match b.solver.satisfy(&mut brancher, &mut t) {
+                SatisfactionResult::Satisfiable(sol) => {
+                    out.cover("verdict:sat");
+                    let _ = check_solution(&mut out, m, &read_solution(&sol, &b.xs), "satisfy");
+                }
+                SatisfactionResult::Unsatisfiable => {
+                    out.cover("verdict:unsat");
+                    if let Some(a) = sols.iter().next() {
+                        out.fail("unsat-but-satisfiable", format!("satisfy reported Unsatisfiable but {a:?} is a solution ({} solutions)", sols.len()));
+                    }
+                }
+                SatisfactionResult::Unknown => {
+                    out.fail("budget-exhausted", format!("no verdict within {} polls with a termination condition that never fires before", t.polls));
+                }
+            }
+            out
+        });
+        let ev = pumpkin_solver::verif::drain();
+        pumpkin_solver::verif::disable();
+        merge(&mut out, res);
+        if !out.failed() {
+            let _ = events::check_learned(&mut out, &ev, &sols, &map);
+        }
+        if out.failed() {
+            cfg.label(&mut out);
+            out.config = Json::obj([("failing_configuration", cfg.to_json()), ("index", Json::Int(ci as i128))]);
+            nontrivial(&mut out, &ev, 0);
+            return out;
+        }
+        all_ev.extend(ev);
+    }
+    out.config = Json::Arr(descs);
+    out.cover("shape:deep-chain");
+    nontrivial(&mut out, &all_ev, 0);
+    out.count(if sols.is_empty() { "models_unsat" } else { "models_sat" }, 1);
+    out
+}
+
+/// Configuration for the deep-chain models: learning on, minimisation mostly on, no tiny nogood
+/// limits, an independent variable/value selector (most of which fix a long stretch of the chain with
+/// a single decision) or the default brancher.
+pub fn deep_chain_config(r: &mut SmallRng) -> Config {
+    let mut c = Config::random_progressing(r);
+    c.opts.no_learning = false;
+    if r.gen_bool(0.8) {
+        c.opts.minimise = true;
+    }
+    c.br = if r.gen_bool(0.75) { BrSpec::Ivv(r.gen_range(0..11), r.gen_range(0..14), r.gen()) } else { BrSpec::Default };
+    c
+}
+
 // ---------------------------------------------------------------------------------------------
 // C04: optimisation
 
